@@ -193,9 +193,8 @@ Proof.
   assert (W1 : forall b, drel 1 s4 b -> drel 2 s3 b).
   { intros b H. now apply (drel_trans 1 1 s3 s4). }
   assert (Kxc : forall e, drel 0 s4 (let s5 := upd_group s4 g (fun x => gr_excs (g_excs x ++ [(t, e)]) x) in
-                                     if eff_cancelled s5 (g_scope (groups s5 g)) then s5
-                                     else scope_cancel s5 (g_scope (groups s5 g)) false)).
-  { intros e. cbv zeta. apply (drel_trans 0 0 s4 _ _ (Kx e)). apply Kc. }
+                                     scope_cancel s5 (g_scope (groups s5 g)) false)).
+  { intros e. cbv zeta. apply (drel_trans 0 0 s4 _ _ (Kx e)). apply drel_scope_cancel. }
   destruct (k_done k) as [[v|e|e]|].
   - destruct (k_startfut k) as [f|]; [|apply W0, drel_refl].
     destruct (f_st (futs s4 f)); try (apply W0, drel_refl). apply W1, drel_fut_complete.
@@ -752,9 +751,8 @@ Section Steps.
                                   else scope_cancel a (g_scope (groups a g)) false)).
     { intros a. destruct (eff_cancelled a _); [apply out_refl|apply out_scope_cancel]. }
     assert (Kxc : forall e, Out s4 (let s5 := upd_group s4 g (fun x => gr_excs (g_excs x ++ [(t', e)]) x) in
-                                    if eff_cancelled s5 (g_scope (groups s5 g)) then s5
-                                    else scope_cancel s5 (g_scope (groups s5 g)) false)).
-    { intros e. cbv zeta. eapply out_trans; [apply out_upd_group|apply Kc]. }
+                                    scope_cancel s5 (g_scope (groups s5 g)) false)).
+    { intros e. cbv zeta. eapply out_trans; [apply out_upd_group|apply out_scope_cancel]. }
     apply (out_trans s3 s4); [exact K4|].
     destruct (k_done k) as [[v|e|e]|].
     - destruct (k_startfut k) as [f0|]; [|apply out_refl].
@@ -1072,10 +1070,9 @@ Proof.
                                 else scope_cancel a (g_scope (groups a g)) false)).
   { intros a. destruct (eff_cancelled a _); [apply rsh_refl|apply rsh_scope_cancel]. }
   assert (Kxc : forall e, rsh s4 (let s5 := upd_group s4 g (fun x => gr_excs (g_excs x ++ [(t, e)]) x) in
-                                  if eff_cancelled s5 (g_scope (groups s5 g)) then s5
-                                  else scope_cancel s5 (g_scope (groups s5 g)) false)).
+                                  scope_cancel s5 (g_scope (groups s5 g)) false)).
   { intros e. cbv zeta. apply (rsh_trans s4 (upd_group s4 g (fun x => gr_excs (g_excs x ++ [(t, e)]) x)));
-      [apply rsh_same; reflexivity|apply Kc]. }
+      [apply rsh_same; reflexivity|apply rsh_scope_cancel]. }
   assert (Kf : forall f0 v, rsh s4 (fut_complete s4 f0 v)) by (intros; apply rsh_kframe, kframe_fut_complete).
   eapply rsh_trans; [exact K4|].
   destruct (k_done k) as [[v|e|e]|].
@@ -1530,10 +1527,9 @@ Section BareSteps.
                              else scope_cancel a (g_scope (groups a g)) false)).
     { intros a Ha. destruct (eff_cancelled a _); [apply outy_refl|now apply outy_scope_cancel]. }
     assert (Kxc : forall e, Outy t c s4 (let s5 := upd_group s4 g (fun x => gr_excs (g_excs x ++ [(t', e)]) x) in
-                                         if eff_cancelled s5 (g_scope (groups s5 g)) then s5
-                                         else scope_cancel s5 (g_scope (groups s5 g)) false)).
+                                         scope_cancel s5 (g_scope (groups s5 g)) false)).
     { intros e. cbv zeta. apply (outy_trans t c s4 (upd_group s4 g (fun x => gr_excs (g_excs x ++ [(t', e)]) x)));
-        [apply outy_upd_group|apply Kc; exact Hw4]. }
+        [apply outy_upd_group|apply outy_scope_cancel; exact Hw4]. }
     apply (outy_trans t c s3 s4); [exact K4|].
     destruct (k_done k) as [[v|e|e]|].
     - destruct (k_startfut k) as [f0|]; [|apply outy_refl].
